@@ -593,7 +593,7 @@ int yr_object_copy(YR_OBJECT* object, YR_OBJECT** object_copy)
 
       FAIL_ON_ERROR_WITH_CLEANUP(yr_object_structure_set_member(copy, o),
                                  // cleanup
-                                 yr_free(o);
+                                 yr_object_destroy(o);
                                  yr_object_destroy(copy));
 
       structure_member = structure_member->next;
@@ -688,8 +688,12 @@ YR_API YR_OBJECT* yr_object_array_get_item(YR_OBJECT* object, int flags,
   {
     yr_object_copy(array->prototype_item, &result);
 
-    if (result != NULL)
-      yr_object_array_set_item(object, result, index);
+    if (result != NULL &&
+        yr_object_array_set_item(object, result, index) != ERROR_SUCCESS)
+    {
+      yr_object_destroy(result);
+      result = NULL;
+    }
   }
 
   return result;
@@ -729,11 +733,13 @@ int yr_object_array_set_item(YR_OBJECT* object, YR_OBJECT* item, int index)
 
     while (capacity <= index) capacity *= 2;
 
-    array->items = (YR_ARRAY_ITEMS*) yr_realloc(
+    YR_ARRAY_ITEMS* items = (YR_ARRAY_ITEMS*) yr_realloc(
         array->items, sizeof(YR_ARRAY_ITEMS) + capacity * sizeof(YR_OBJECT*));
 
-    if (array->items == NULL)
+    if (items == NULL)
       return ERROR_INSUFFICIENT_MEMORY;
+
+    array->items = items;
 
     for (int i = array->items->capacity; i < capacity; i++)
       array->items->objects[i] = NULL;
@@ -775,8 +781,12 @@ YR_OBJECT* yr_object_dict_get_item(
   {
     yr_object_copy(dict->prototype_item, &result);
 
-    if (result != NULL)
-      yr_object_dict_set_item(object, result, key);
+    if (result != NULL &&
+        yr_object_dict_set_item(object, result, key) != ERROR_SUCCESS)
+    {
+      yr_object_destroy(result);
+      result = NULL;
+    }
   }
 
   return result;
@@ -810,12 +820,14 @@ int yr_object_dict_set_item(YR_OBJECT* object, YR_OBJECT* item, const char* key)
   else if (dict->items->free == 0)
   {
     count = dict->items->used * 2;
-    dict->items = (YR_DICTIONARY_ITEMS*) yr_realloc(
+    YR_DICTIONARY_ITEMS* items = (YR_DICTIONARY_ITEMS*) yr_realloc(
         dict->items,
         sizeof(YR_DICTIONARY_ITEMS) + count * sizeof(dict->items->objects[0]));
 
-    if (dict->items == NULL)
+    if (items == NULL)
       return ERROR_INSUFFICIENT_MEMORY;
+
+    dict->items = items;
 
     for (int i = dict->items->used; i < count; i++)
     {
@@ -826,9 +838,14 @@ int yr_object_dict_set_item(YR_OBJECT* object, YR_OBJECT* item, const char* key)
     dict->items->free = dict->items->used;
   }
 
+  SIZED_STRING* item_key = ss_new(key);
+
+  if (item_key == NULL)
+    return ERROR_INSUFFICIENT_MEMORY;
+
   item->parent = object;
 
-  dict->items->objects[dict->items->used].key = ss_new(key);
+  dict->items->objects[dict->items->used].key = item_key;
   dict->items->objects[dict->items->used].obj = item;
 
   dict->items->used++;
